@@ -149,7 +149,7 @@ func NewContractSet() *ContractSet {
 }
 
 var clauseKeywords = map[string]bool{
-	"func": true, "extern": true, "spec": true, "axiom": true, "type": true, "lemma": true, "guarded": true, "go_inline": true,
+	"func": true, "extern": true, "spec": true, "axiom": true, "type": true, "lemma": true, "guarded": true, "go_inline": true, "preserves": true,
 	"requires": true, "ensures": true, "loop": true, "nullable": true, "at": true,
 	"ghost": true, "assigns": true, "modular": true, "inline": true, "trusted": true,
 	"mode": true, "alloc_bound": true, "pure": true, "protected_by": true, "immutable": true,
@@ -477,6 +477,13 @@ func (cs *ContractSet) ParseContractFile(path string, pkgPath string) error {
 					cur.Assigns = append(cur.Assigns, strings.TrimSpace(p))
 				}
 				cur.Flags["assigns"] = "1"
+			case "preserves":
+				// trusted frame: the function may write anything EXCEPT the listed heap regions (bmain.go)
+				if cur.Flags["preserves"] != "" {
+					cur.Flags["preserves"] += ", "
+				}
+				cur.Flags["preserves"] += strings.TrimSpace(rest)
+				cs.Trusted = append(cs.Trusted, fmt.Sprintf("trusted frame of %s: preserves %s (%s:%d)", cur.Key, strings.TrimSpace(rest), path, l.no))
 			case "guarded":
 				g, err := parseGuardClause(rest, path, l.no)
 				if err != nil {
